@@ -77,6 +77,16 @@ struct LBM {  // logical buffer between two ordinary members (framing)
   std::uint8_t post;
   NOP_STRUCTURE(LBM, pre, (data, count), post);
 };
+// unbounded logical buffer (the C "dynamically sized trailing array" idiom): array of length 1 at the end of the
+// structure, capacity vouched for by the caller (the harness allocates kUnboundedCap elements behind it)
+constexpr std::size_t kUnboundedCap = 40;
+template <class E>
+struct UB {
+  std::size_t size;
+  E data[1];
+  NOP_STRUCTURE(UB, (data, size));
+  NOP_UNBOUNDED_BUFFER(UB);
+};
 // ---------------------------------------------------------------- value wrappers
 template <class A>
 struct W1 {
@@ -263,6 +273,21 @@ struct Br<vt::LBM<E, N, S>> {
   static void from(const Val& v, T& x) {
     Br<int32_t>::from(v.kids[0], x.pre); LBBridge<E, N, S>::from(v.kids[1], x.data, x.count); Br<uint8_t>::from(v.kids[2], x.post);
   }
+};
+template <class E>
+struct Br<vt::UB<E>> {
+  using T = vt::UB<E>;
+  static Sch sch() {
+    Sch s = Sch::Of(K::Stu);
+    s.kids = {LBBridge<E, vt::kUnboundedCap, std::size_t>::sch()};
+    s.kids[0].unbounded = true;
+    s.name = name();
+    return s;
+  }
+  static std::string name() { return "UB<" + Br<E>::name() + ">"; }
+  // the object was allocated with room for kUnboundedCap elements (see UBHolder)
+  static void to(const T& x, Val& v) { v = Val(); v.kids.resize(1); LBBridge<E, vt::kUnboundedCap, std::size_t>::to(x.data, x.size, v.kids[0]); }
+  static void from(const Val& v, T& x) { LBBridge<E, vt::kUnboundedCap, std::size_t>::from(v.kids[0], x.data, x.size); }
 };
 // ---- value wrappers are transparent on the wire
 template <class A>
